@@ -486,6 +486,13 @@ func (c *Client) monitor(ctx context.Context) {
 						}
 						dlog.Printf("namespaces updated")
 
+						// the session and its subscriptions are still alive on
+						// the server. Ask for the notifications we have missed
+						// and recreate the subscriptions the server has lost.
+						subsToRepublish = c.SubscriptionIDs()
+						subsToRecreate = nil
+						availableSeqs = map[uint32][]uint32{}
+
 						action = restoreSubscriptions
 
 					case recreateSession:
